@@ -5,13 +5,15 @@ from vlib import common as C
 LEAN_MODULES = ["CoapVerif.Props.C20"]
 NAMESPACE = "Coap.C20"
 REQUIRED_THEOREMS = ["window_exact", "total_exact", "trunc_flag_iff", "listing_exactly_registered", "match_eq_spec",
-                     "match_no_overread", "block_get_reassembles"]
+                     "match_no_overread", "block_get_reassembles", "wellknown_eq", "filter_eq_spec", "get_body_eq_listing",
+                     "get_reassembles_partial", "get_query_escaped_witness"]
 RULE = ("resource tables built by 0..12 coap_add_resource/coap_delete_resource calls (paths from a small pool so that "
         "re-registration happens, 0..4 attributes with/without value, quoted/unquoted/empty/one-byte/malformed-quote values, "
         "observable / OSCORE-only markers, library-copied or caller-owned exact-size strings) x filters (none, NULL, href/rt/if/rel/"
         "other names; token, prefix*, pattern longer than a token, pattern with SP, leading '/', empty, no '=', empty name) x "
         "ALL (offset, buflen) pairs up to listing length + 2 for listings up to the tier's size limit (sampled rows/columns "
-        "beyond), plus the size-probe/full-print body of the GET handler and match() on all short strings over {a,b,SP}; "
+        "beyond), plus the size-probe/full-print body of the GET handler, a real block-wise GET through coap_dispatch() for "
+        "every Block2 size (SZX 0..6) and match() on short strings over {a,b,SP}; "
         "non-trivial = distinct input whose listing is non-empty")
 TRUSTED_BASE = ["Lean 4.33 kernel; axioms allowed: propext, Classical.choice, Quot.sound (audited per theorem each run)",
                 "harness/linkfmt.c + generator + field-wise comparison in props/C20.py",
@@ -22,8 +24,10 @@ TRUSTED_BASE = ["Lean 4.33 kernel; axioms allowed: propext, Classical.choice, Qu
                 "exercised by the generator, not proved)"]
 ASSUMPTIONS = ["buflen <= COAP_PRINT_STATUS_MAX (0x0FFFFFFF) and offset + buflen < 2^64 (no wrap of the status word / size_t)",
                "a non-NULL attribute value has a non-NULL `s`; strings are byte strings of their stated length",
-               "the query is the percent-decoded query string coap_get_query() hands to the handler",
-               "block slicing of the body is the block-wise layer's (C09); C20 proves the tiling lemma and checks the body",
+               "coap_print_wellknown(): the query is taken as the decoded search string; on the GET path coap_get_query() is modelled "
+               "(one Uri-Query option) and its percent-escaping is the open finding wkc-query-escaped",
+               "block slicing of the body is the block-wise layer's (C09): C20 proves the tiling lemma, proves the body the handler "
+               "hands over, and observes the reassembled GET for every SZX",
                "compiled Lean definitions agree with the kernel's reading of them"]
 SPEC_DECISIONS = ["D20.1 attributes are listed in table order (most recently added first), then ;obs, then ;osc",
                   "D20.2 empty query / empty name = no filter; non-empty query without '=' selects nothing",
@@ -35,7 +39,7 @@ SPEC_DECISIONS = ["D20.1 attributes are listed in table order (most recently add
 
 
 def harness(ctx):
-    return C.build_harness("linkfmt", C.build_libcoap())
+    return C.build_harness("linkfmt", C.build_libcoap(), wraps=["coap_socket_send"])
 
 
 def hx(b):
@@ -229,10 +233,10 @@ def match_lines(rng, n, exhaustive):
 def generate(ctx, escalate=False):
     rng = ctx.rng
     thorough = ctx.thorough()
-    ntables = 1500 if thorough else 260
+    ntables = 4000 if thorough else 700
     if escalate:
         ntables *= 2
-    full_limit = 90 if thorough else 56
+    full_limit = 100 if thorough else 64
     pairs, meta = [], []
     for i in range(ntables):
         nres = rng.choice([0, 1, 1, 1, 2, 2, 2, 3, 3, 4, 5, 6, 8, 10, 12])
@@ -243,7 +247,7 @@ def generate(ctx, escalate=False):
             meta.append(upper_len(ents))
     lens = spec_lengths(pairs)
     out = []
-    nfull = nsampled = 0
+    nfull = nsampled = nwin = 0
     for (t, f), ub, L in zip(pairs, meta, lens):
         if L is None:
             L = ub
@@ -251,10 +255,18 @@ def generate(ctx, escalate=False):
             nfull += 1
         else:
             nsampled += 1
-        out += pack(t, f, windows_for(rng, L, full_limit))
+        ws = windows_for(rng, L, full_limit)
+        nwin += len(ws)
+        out += pack(t, f, ws)
         out.append("body %s %s" % (t, f))
+        # a real block-wise GET through coap_dispatch(): every Block2 size
+        # (not when the application itself registered .well-known/core: then the request is the application's)
+        if (f in ("N", "-") or len(f) <= 2 * 255) and WK_HEX not in t:
+            if rng.random() < (1.0 if thorough else 0.5):
+                for szx in range(7):
+                    out.append("get %s %s %d" % (t, f, szx))
     ctx.cov["exhaustive"] = {"table_filter_pairs_with_all_windows": nfull, "pairs_with_edge_rows_columns_and_sample": nsampled,
-                             "full_window_limit": full_limit}
+                             "full_window_limit": full_limit, "printer_calls": nwin, "tables": ntables}
     out += match_lines(rng, 6000, thorough)
     return out
 
@@ -355,5 +367,16 @@ def shrink(ctx, case):
     return best
 
 
+WK_HEX = b".well-known/core".hex()
+UNESCAPED = set(b"ABCDEFGHIJKLMNOPQRSTUVWXYZabcdefghijklmnopqrstuvwxyz0123456789-._~!$'()*+,;=:@&/?")
+
+
 def known(ctx, c):
+    """open finding wkc-query-escaped: a GET whose Uri-Query value contains a byte that coap_get_query() percent-escapes,
+    and the implementation answers exactly what the model of that escaping predicts (any other deviation is reported)"""
+    p = c["input"].split()
+    if p[0] == "get" and p[2] not in ("N", "-"):
+        q = bytes.fromhex(p[2])
+        if any(b not in UNESCAPED for b in q) and c["impl"] == c["model"] and c["impl"] != c["spec"]:
+            return "wkc-query-escaped"
     return None
